@@ -184,6 +184,21 @@ type Account struct {
 	events        []*types.Event
 	newestRecords map[types.ChangeLogType]uint32
 	suicided      bool // will be delete from the trie during the "save" phase
+	// what the self-destructs of this block wiped and no change log records (in-memory code, cached
+	// and dirty entries of the tries, the asset roots); undo of a SuicideLog puts it back. A stack,
+	// because logs are undone in reverse order
+	beforeSuicide []*suicideBackup
+}
+
+type suicideBackup struct {
+	suicided      bool
+	assetCodeRoot common.Hash
+	assetIdRoot   common.Hash
+	code          types.Code
+	codeIsDirty   bool
+	storage       *StorageCache
+	assetCode     *StorageCache
+	assetId       *StorageCache
 }
 
 func (a *Account) SetSingers(signers types.Signers) error {
@@ -398,11 +413,37 @@ func (a *Account) SetBalance(balance *big.Int) {
 
 func (a *Account) SetSuicide(suicided bool) {
 	if suicided {
+		// the caches are replaced, not emptied, so that a revert finds them as they were
+		a.beforeSuicide = append(a.beforeSuicide, &suicideBackup{
+			suicided:      a.suicided,
+			assetCodeRoot: a.data.AssetCodeRoot,
+			assetIdRoot:   a.data.AssetIdRoot,
+			code:          a.code,
+			codeIsDirty:   a.codeIsDirty,
+			storage:       a.storage,
+			assetCode:     a.assetCode,
+			assetId:       a.assetId,
+		})
+		a.storage = NewStorageCache(a.db)
+		a.assetCode = NewStorageCache(a.db)
+		a.assetId = NewStorageCache(a.db)
 		a.SetBalance(new(big.Int))
 		a.SetCodeHash(common.Hash{})
 		a.SetStorageRoot(common.Hash{})
 		a.SetAssetCodeRoot(common.Hash{})
 		a.SetAssetIdRoot(common.Hash{})
+	} else if n := len(a.beforeSuicide); n > 0 {
+		// undo of a SuicideLog (balance, code hash and storage root were restored from the log)
+		backup := a.beforeSuicide[n-1]
+		a.beforeSuicide = a.beforeSuicide[:n-1]
+		a.data.AssetCodeRoot = backup.assetCodeRoot
+		a.data.AssetIdRoot = backup.assetIdRoot
+		a.code = backup.code
+		a.codeIsDirty = backup.codeIsDirty
+		a.storage = backup.storage
+		a.assetCode = backup.assetCode
+		a.assetId = backup.assetId
+		suicided = backup.suicided
 	}
 	a.suicided = suicided
 }
